@@ -436,11 +436,11 @@ func (c *ComputedStyle) cascadeValue(key pr.PropKey) (value pr.DeclaredValue, sa
 			}
 		}
 		var err error
-		if cyclic {
-			// invalid at computed-value time
-			err = errors.New("cyclic var() reference")
-		} else if len(solvedTokens) == 0 {
+		if len(solvedTokens) == 0 {
 			err = errors.New("no value")
+		} else if cyclic {
+			// invalid at computed-value time
+			err = errors.New("invalid value: cyclic or undefined var() reference")
 		} else if shortand != 0 {
 			// the tokens must be expanded (shortand are never variable)
 			value, err = validation.ExpandValidatePending(key.KnownProp, shortand, solvedTokens, c.baseUrl)
@@ -1580,6 +1580,11 @@ func resolveVarSeen(computed map[string]pr.RawTokens, token Token, seen []string
 	source := default_
 	if l := computed[variableName]; len(l) != 0 {
 		source = l
+	}
+	if len(source) == 0 {
+		// undefined and no fallback: like a cycle, this makes the whole
+		// declaration invalid at computed-value time
+		*cyclic = true
 	}
 	computedValue := []Token{}
 	for _, value := range source {
